@@ -39,8 +39,10 @@ def run(chk: Check, model):
     chk.add("C17.denorm", "scale = (max - min) / 2", f.get("scale") == T.mul(half, T.sub(mx, mn)), f"scale = {T.show(f.get('scale', T.NONE))[:100]}", chk.loc(fi))
     zero = [e for e in r.events if e.kind == "raise"]
     chk.add("C17.denorm", "zero scale is rejected", len(zero) >= 1, "Denormalize.init must raise for a zero scale (min == max)", chk.loc(fi))
-    f_n, rn = _ret(model, "base.Denormalize.normalize")
-    f_d, rd = _ret(model, "base.Denormalize.denormalize")
+    # (the arithmetic lives in normalize / denormalize and apply / inv call them, or the other way round: each pair is read with the other inlined)
+    pair = ("apply", "inv", "normalize", "denormalize")
+    f_n, rn = _ret(model, "base.Denormalize.normalize", inline=pair)
+    f_d, rd = _ret(model, "base.Denormalize.denormalize", inline=pair)
     norm, den = rn.ret, rd.ret
     x = S("x")
     p = S("params")
@@ -55,9 +57,9 @@ def run(chk: Check, model):
     chk.add("C17.denorm", "denormalize(+1) == max", hi == mx, f"denormalize(+1) = {T.show(hi)[:100]}", chk.loc(f_d))
     chk.add("C17.denorm", "denormalize is x * scale + offset (monotone for min < max)", den == T.add(T.mul(p, S("self.scale")), S("self.offset")), f"denormalize = {T.show(den)[:120]}", chk.loc(f_d))
     for name, tgt in (("apply", "denormalize"), ("inv", "normalize")):
-        fa, ra = _ret(model, f"base.Denormalize.{name}")
-        chk.add("C17.denorm", f"{name} dispatches to {tgt}", ra.ret == T.mk_call(f"self.{tgt}", [p], [], ra.ret[4] if ra.ret[0] == "call" else None) and T.call_name(ra.ret) == f"self.{tgt}",
-                f"Denormalize.{name} returns {T.show(ra.ret)[:100]}", chk.loc(fa))
+        fa, ra = _ret(model, f"base.Denormalize.{name}", inline=pair)
+        chk.add("C17.denorm", f"{name} dispatches to {tgt}", ra.ret == (den if tgt == "denormalize" else norm),
+                f"Denormalize.{name} computes {T.show(ra.ret)[:100]}, expected what {tgt} computes", chk.loc(fa))
     # ---------------------------------------------------------------- Chain
     for name, rev in (("apply", False), ("inv", True)):
         fc, rc = _ret(model, f"base.Chain.{name}")
@@ -77,6 +79,14 @@ def run(chk: Check, model):
                 body = l.env_out.get(nme)
                 ok = body is not None and body[0] == "call" and body[1] == ("attr", el, name) and body[2] == (sym_in,) and l.pre.get(nme) == p \
                     and rc.ret == S(f"loopout{l.uid}:{nme}") and l.live_out == T.TRUE
+                if not ok and l.pre.get(nme) == ("list", (p,)):
+                    # the intermediate results kept in a list: stages = [params]; each member is applied to the last stage and its result
+                    # appended (once per member, nothing else touches the list); the result is the last stage
+                    last = T.mk_index(sym_in, T.const(-1))
+                    apps = [e for e in rc.events if e.kind == "call" and e.recv == sym_in]
+                    calls = [e for e in rc.events if e.kind == "call" and e.loops == (l.uid,) and isinstance(e.term[1], tuple) and e.term[1] == ("attr", el, name)]
+                    ok = len(apps) == 1 and apps[0].name.endswith(".append") and apps[0].guard == T.TRUE and apps[0].loops == (l.uid,) and len(calls) == 1 and calls[0].args == (last,) \
+                        and apps[0].args == (calls[0].term,) and rc.ret == T.mk_index(S(f"loopout{l.uid}:{nme}"), T.const(-1)) and l.live_out == T.TRUE
         chk.add("C17.chain", f"Chain.{name}: {'last-to-first' if rev else 'first-to-last'} fold of t.{name}", bool(ok),
                 f"Chain.{name} must be `x = params; for t in self.transforms{'[::-1]' if rev else ''}: x = t.{name}(x); return x` with no other member handling", chk.loc(fc))
     fci, rci = _ret(model, "base.Chain.init")
